@@ -9,11 +9,11 @@ import (
 )
 
 type BWarrior struct {
-	Code     []mars.Insn `json:"-"`
-	CodeText []string    `json:"code"`
-	Start    int         `json:"start"`
-	Off      int         `json:"off"`
-	NeverSpawn bool      `json:"never_spawned,omitempty"`
+	Code       []mars.Insn `json:"-"`
+	CodeText   []string    `json:"code"`
+	Start      int         `json:"start"`
+	Off        int         `json:"off"`
+	NeverSpawn bool        `json:"never_spawned,omitempty"`
 }
 
 // BattleCase is a whole battle: configuration, warriors and placements.
